@@ -319,14 +319,15 @@ def _main(a, pid):
     def work():
         k = 0
         # regression corpus: committed replay files of this property
-        rdir = os.path.join(VERIF, 'replays')
-        for fn in sorted(os.listdir(rdir)) if os.path.isdir(rdir) else []:
-            if fn.startswith(pid + '-') and fn.endswith('.json'):
-                try:
-                    with open(os.path.join(rdir, fn)) as f:
-                        yield {'spec': json.load(f)['spec'], 'tag': 'directed'}
-                except (ValueError, KeyError):
-                    pass
+        # (replays/: minimised histories of findings; corpus/: specs that killed a mutant)
+        for rdir in (os.path.join(VERIF, 'replays'), os.path.join(VERIF, 'corpus')):
+            for fn in sorted(os.listdir(rdir)) if os.path.isdir(rdir) else []:
+                if fn.startswith(pid + '-') and fn.endswith('.json'):
+                    try:
+                        with open(os.path.join(rdir, fn)) as f:
+                            yield {'spec': json.load(f)['spec'], 'tag': 'directed'}
+                    except (ValueError, KeyError):
+                        pass
         directed = getattr(prop, 'directed', None)
         if directed is not None:
             for spec in directed(tier, base_seed):
@@ -438,9 +439,10 @@ def _main(a, pid):
 
 
 def write_replay(pid, sig, v, spec, out, runs):
-    os.makedirs(os.path.join(VERIF, 'replays'), exist_ok=True)
+    rdir = os.environ.get('VERIF_REPLAY_DIR') or os.path.join(VERIF, 'replays')
+    os.makedirs(rdir, exist_ok=True)
     h = hashlib.sha256(sig.encode()).hexdigest()[:8]
-    path = os.path.join(VERIF, 'replays', '%s-%s-%s.json' % (pid, h, out.get('seed')))
+    path = os.path.join(rdir, '%s-%s-%s.json' % (pid, h, out.get('seed')))
     doc = {'property': pid, 'signature': sig, 'message': v.get('msg'), 'seed': out.get('seed'),
            'minimise_runs': runs, 'spec': spec}
     with open(path, 'w') as f:
